@@ -16,6 +16,7 @@ from extract import Extractor, ExtractError
 REPO = os.environ.get('VERIF_REPO', '/repo')
 SPEC = os.path.join(ROOT, 'spec')
 GEN = os.path.join(ROOT, 'gen')
+CACHE = os.path.join(GEN, 'cache')
 EVID = os.path.join(ROOT, 'evidence')
 REPLAYS = os.path.join(ROOT, 'replays')
 
@@ -286,6 +287,24 @@ def run_unit(prop, unit, pcfg, cache, usize=8, seed=None, want_canary=True, forc
         passed = sorted(exp_in - failed_canaries)
         if passed:
             raise Undecided('vacuity guard: assert(false) was PROVED at %s -- a precondition or axiom set is contradictory' % passed)
+    # a resource-limit hit is not a verdict: retry each such function alone with a larger budget and few errors
+    rl = [x for x in undec if x['kind'] == 'rlimit' and x.get('fn')]
+    if rl and depth < 4:
+        redo = {}
+        for x in rl:
+            f = next((g_ for g_ in gen.fns if g_.path == x['fn'] and g_.module == x['module']), None)
+            if f is not None: redo[(f.module, f.path)] = f
+        for (m_, p_), f in list(redo.items())[:4]:
+            vname = p_.split(' for ', 1)[1] if ' for ' in p_ else p_       # `Trait for Type::m` is addressed as `Type::m`
+            r2 = vrun.run(gpath, [], rlimit * 5, 8, seed, cache, extra=['--verify-only-module', m_, '--verify-function', vname], multiple_errors=2)
+            if not r2['have_results']: continue
+            f2, u2 = map_failures(r2, gen, unitcfg)
+            # keep only results about this function
+            f2 = [y for y in f2 if y['fn'] == p_ and y['module'] == m_]
+            u2 = [y for y in u2 if y.get('fn') == p_ and y.get('module') == m_]
+            undec = [y for y in undec if not (y.get('fn') == p_ and y.get('module') == m_ and y['kind'] == 'rlimit')]
+            fails = [y for y in fails if not (y['fn'] == p_ and y['module'] == m_)] + f2
+            undec += u2
     for f in gen.fns:
         if f.lost and f.module in mods:
             undec.append({'message': 'contract anchors lost, function left unverified (external_body): %s' % f.lost, 'fn': f.path, 'module': f.module,
@@ -325,9 +344,14 @@ def main():
         print('unknown or unclaimed property %s' % prop); return 2
     pcfg = props['property'][prop]
     units = pcfg.get('units') or [pcfg.get('unit', 'core')]
+    # generated files of this invocation go to a private directory (several checks may run concurrently); the cache is shared
+    global GEN
+    import atexit, shutil
+    GEN = os.path.join(ROOT, 'gen', 'run-%d' % os.getpid())
     os.makedirs(GEN, exist_ok=True); os.makedirs(EVID, exist_ok=True)
+    if not a.keep: atexit.register(lambda: shutil.rmtree(GEN, ignore_errors=True))
     tier = a.tier if a.tier in ('quick', 'thorough') else 'quick'
-    cache = None if (a.no_cache or tier == 'thorough') else os.path.join(GEN, 'cache')
+    cache = None if (a.no_cache or tier == 'thorough') else CACHE
     runs = []
     extra = {}
     try:
@@ -428,7 +452,7 @@ def main():
         'property_id': prop, 'tier': tier, 'seed': seed, 'level': pcfg.get('level', 'proof'),
         'coverage': {
             'obligations': len(obs), 'discharged': len(discharged),
-            'checker_cmd': ' ;; '.join(u.res['cmd'] for u in runs) + '  (cwd=%s; inputs regenerated from %s/src on this run)' % (GEN, REPO),
+            'checker_cmd': ' ;; '.join(u.res['cmd'] for u in runs) + '  (cwd=%s, a per-run directory removed afterwards -- use --keep to retain it; inputs regenerated from %s/src on this run)' % (GEN, REPO),
             'trusted_base': trusted,
             'samples': samples,
             'exhaustive': False,
